@@ -30,15 +30,19 @@ vars == <<stateVars, last>>
 (* model-checking values *)
 MCValSets == { [a |-> 1, b |-> 1, c |-> 1], [a |-> 2, b |-> 1], [c |-> 1] }
 MCBound == Cardinality(DOMAIN cons) <= 3
+Roots == {"r1", "r2"}
+GenValSets == { [a |-> 1, b |-> 1, c |-> 1], [a |-> 2, b |-> 1], [c |-> 1], [a |-> 1, b |-> 2, c |-> 3], [b |-> 1, c |-> 1], [a |-> 3, c |-> 1] }
 
 RECURSIVE Sum(_, _)
 Sum(f, S) == IF S = {} THEN 0 ELSE LET x == CHOOSE y \in S : TRUE IN f[x] + Sum(f, S \ {x})
 Total(vs) == Sum(vs, DOMAIN vs)
 (* voting power of the signers that belong to validator set vs *)
 Signed(vs, signers) == Sum(vs, signers \cap DOMAIN vs)
+(* only validators of the header's own set have a signature in its commit *)
+Eff(hd) == hd.signers \cap DOMAIN hd.vals
 
 Header == [height : Heights, rev : {0, 1}, time : Times, vals : ValSets, next : ValSets, signers : SUBSET UNION {DOMAIN v : v \in ValSets},
-           th : Heights \cup {1}, tvals : ValSets, root : {"r1", "r2"}]
+           th : Heights \cup {1}, tvals : ValSets, root : Roots]
 
 Expired(t) == t + TP <= now                      \* IsExpired / HeaderExpired: !expiration.After(now)
 Active == latest \in DOMAIN cons /\ ~Expired(cons[latest].time)
@@ -53,10 +57,10 @@ Accept(hd) ==
   /\ ~Expired(cons[hd.th].time)                                      \* HeaderExpired(trusted)
   /\ hd.time > cons[hd.th].time                                      \* verifyNewHeaderAndVals
   /\ hd.time < now + Drift
-  /\ Signed(hd.vals, hd.signers) * 3 > Total(hd.vals) * 2            \* +2/3 of the header's own set
+  /\ Signed(hd.vals, Eff(hd)) * 3 > Total(hd.vals) * 2                \* +2/3 of the header's own set
   /\ IF hd.height = hd.th + 1
      THEN hd.vals = cons[hd.th].next                                 \* VerifyAdjacent
-     ELSE Signed(hd.tvals, hd.signers) * TLDen > Total(hd.tvals) * TLNum   \* VerifyNonAdjacent: trust level of the trusted set
+     ELSE Signed(hd.tvals, Eff(hd)) * TLDen > Total(hd.tvals) * TLNum      \* VerifyNonAdjacent: trust level of the trusted set
 
 (* the earliest consensus state is pruned when it is expired (only the earliest one is looked at) *)
 Earliest == CHOOSE h \in DOMAIN cons : \A g \in DOMAIN cons : h <= g
@@ -90,8 +94,8 @@ Spec == Init /\ [][Next]_vars
 (* what the statement demands of an accepted header (trust level clause for levels <= 2/3, see DESIGN.md) *)
 Sound(hd) ==
   /\ hd.th \in DOMAIN cons /\ hd.tvals = cons[hd.th].next
-  /\ Signed(hd.tvals, hd.signers) * TLDen > Total(hd.tvals) * TLNum
-  /\ Signed(hd.vals, hd.signers) * 3 > Total(hd.vals) * 2
+  /\ Signed(hd.tvals, Eff(hd)) * TLDen > Total(hd.tvals) * TLNum
+  /\ Signed(hd.vals, Eff(hd)) * 3 > Total(hd.vals) * 2
   /\ hd.height > hd.th /\ hd.rev = 0
   /\ cons[hd.th].time + TP > now /\ hd.time < now + Drift /\ hd.time > cons[hd.th].time
   /\ Active
